@@ -429,6 +429,33 @@ func c15Run(c *C) {
 			return
 		}
 		c.Cover(fmt.Sprintf("options_tb=%v_ls=%v", tb, ls))
+		if r.Chance(25) {
+			// the document as a NESTED template (included, ssi-parsed, parent of a child): compiled while the set's options
+			// are (tb, ls). Afterwards the application changes the fields of the same set.Options object in place to configure
+			// its next template: the templates compiled before keep rendering what they rendered - all of their text
+			nfiles := map[string]string{"/inc.tpl": marked, "/main.tpl": "{% include \"/inc.tpl\" %}|{% ssi \"/inc.tpl\" parsed %}", "/base.tpl": marked + "Z{% block zzlast %}{% endblock %}", "/child.tpl": "{% extends \"/base.tpl\" %}{% block zzlast %}{% endblock %}"}
+			nset, _ := newSet(nfiles)
+			nset.Options.TrimBlocks, nset.Options.LStripBlocks = tb, ls
+			nmain, e1 := nset.FromFile("/main.tpl")
+			nchild, e2 := nset.FromFile("/child.tpl")
+			if e1 == nil && e2 == nil {
+				for round := 0; round < 2; round++ {
+					mo, mx := nmain.Execute(wsCtx())
+					co, cx := nchild.Execute(wsCtx())
+					c.Eval(2)
+					if mx != nil || cx != nil || mo != direct.String()+"|"+direct.String() || co != direct.String()+"Z" {
+						d["files"] = nfiles
+						d["why"] = map[int]string{0: "the document as an included / ssi-parsed / parent template, options set on the set before compiling", 1: "the same compiled templates after set.Options.TrimBlocks / LStripBlocks were changed in place (and another template was compiled)"}[round]
+						d["output_including"], d["output_child"], d["error"] = q(mo), q(co), errStr(mx)+errStr(cx)
+						c.Fail("whitespace", d)
+						return
+					}
+					nset.Options.TrimBlocks, nset.Options.LStripBlocks = !tb, !ls
+					nset.FromString("{% if 1 %}\n next template {% endif %}\n")
+				}
+				c.Cover("nested_templates_keep_their_options")
+			}
+		}
 		if longPlain != nil {
 			// the same compiled template, its options changed since its previous execution
 			switch r.Intn(3) {
